@@ -15,3 +15,4 @@ import DsdVerif.Props.C13Reject
 import DsdVerif.Props.C13RejectKernel
 import DsdVerif.Props.C13RejectEx
 import DsdVerif.Props.C13SoundSig
+import DsdVerif.Props.C13Indent
